@@ -13,7 +13,10 @@ use svm::Ledger;
 
 fn worlds(thorough: bool) -> Vec<Built> {
     let mut v = vec![stdworlds::build_with_roots(&stdworlds::std_spec("c05-std-dfd", [Enc::Dynamic, Enc::Fixed, Enc::Dynamic], 3000, 300), &stdworlds::std_roots())];
-    v.push(stdworlds::build_with_roots(&stdworlds::std_spec("c05-std-fdf", [Enc::Fixed, Enc::Dynamic, Enc::Fixed], 100, 0), &stdworlds::std_roots()[1..]));
+    v.push(stdworlds::build_with_roots(&stdworlds::chain_spec("c05-chain-ddd", [Enc::Dynamic, Enc::Dynamic, Enc::Dynamic], 100, 0), &stdworlds::chain_roots()));
+    if thorough {
+        v.push(stdworlds::build_with_roots(&stdworlds::std_spec("c05-std-fdf", [Enc::Fixed, Enc::Dynamic, Enc::Fixed], 100, 0), &stdworlds::std_roots()[1..]));
+    }
     let splash_roots: Vec<(&'static str, Vec<Op>)> = vec![
         ("fresh", vec![]),
         ("funded", vec![Op::Inc { pos: 0, liq: stdworlds::BIG, v2: false }, Op::Inc { pos: 1, liq: 7, v2: true }]),
